@@ -38,6 +38,9 @@ CALLEES = {
     "nestt": ("def nestt(x: bool, y: bool) -> Tuple[Tuple[bool, bool], bool]:\n\treturn ((x, y), x ^ y)", ["bool", "bool"], "Tuple[Tuple[bool, bool], bool]"),
     "swp": ("def swp(t: Qlist[Qint[2], 2]) -> Qlist[Qint[2], 2]:\n\treturn [t[1], t[0]]", ["Qlist[Qint[2], 2]"], "Qlist[Qint[2], 2]"),
     "tfirst": ("def tfirst(t: Tuple[Qint[4], bool]) -> Qint[4]:\n\treturn t[0] if t[1] else 0", ["Tuple[Qint[4], bool]"], "Qint[4]"),
+    "add3w": ("def add3w(x: Qint[4]) -> Qint[4]:\n\treturn x + 3", ["Qint[4]"], "Qint[4]"),
+    "deep": ("def deep(x: bool, n: Qint[2]) -> Tuple[bool, Tuple[bool, Qint[2]]]:\n\treturn (not x, (x, n + 1))", ["bool", "Qint[2]"], "Tuple[bool, Tuple[bool, Qint[2]]]"),
+    "deep2": ("def deep2(n: Qint[2], x: bool) -> Tuple[Tuple[Qint[2], bool], Tuple[bool, Qint[2]]]:\n\treturn ((n, x), (not x, n + 1))", ["Qint[2]", "bool"], "Tuple[Tuple[Qint[2], bool], Tuple[bool, Qint[2]]]"),
     "tmid": ("def tmid(t: Tuple[bool, Qint[4], bool]) -> Qint[4]:\n\treturn t[1] if (t[0] or t[2]) else 1", ["Tuple[bool, Qint[4], bool]"], "Qint[4]"),
 }
 
@@ -106,6 +109,18 @@ CALLERS = [
     (["nestt"], "def c(a: bool, b: bool) -> bool:\n\tr = nestt(b, a)\n\treturn r[0][0] and r[1]"),
     (["swp"], "def c(a: Qint[2], b: Qint[2]) -> Qint[2]:\n\tr = swp([a, b])\n\treturn r[0]"),
     (["swp"], "def c(a: Qint[2], b: Qint[2]) -> bool:\n\tr = swp([a, b])\n\treturn r[1] == a"),
+    # the SAME call text several times while the argument variable changes (value, and width) in between
+    (["inc4"], "def c(a: bool) -> Qint[4]:\n\tacc = 1\n\tacc = inc4(acc)\n\tacc = inc4(acc)\n\tacc = inc4(acc)\n\treturn acc"),
+    (["inc4"], "def c(a: Qint[2]) -> Qint[4]:\n\tacc = a\n\tfor i in range(3):\n\t\tacc = inc4(acc)\n\treturn acc"),
+    (["add3w"], "def c(a: Qint[4]) -> Qint[4]:\n\tacc = 1\n\tfor i in range(3):\n\t\tacc = add3w(acc)\n\treturn acc + a"),
+    (["add3w"], "def c(a: Qint[2]) -> Qint[4]:\n\tacc = a\n\tacc = add3w(acc)\n\tacc = add3w(acc)\n\treturn acc"),
+    (["inc"], "def c(a: Qint[2], b: Qint[2]) -> Qint[2]:\n\tx = a\n\tr = inc(x)\n\tx = b\n\treturn r + inc(x)"),
+    (["neg"], "def c(a: bool, b: bool) -> bool:\n\tx = a\n\tr = neg(x)\n\tx = b\n\treturn r and neg(x)"),
+    # tuple results nested two levels, with a multi-bit element inside the inner tuple
+    (["deep"], "def c(a: bool, n: Qint[2]) -> Qint[2]:\n\tr = deep(a, n)\n\treturn r[1][1]"),
+    (["deep"], "def c(a: bool, n: Qint[2]) -> bool:\n\tr = deep(a, n)\n\treturn r[1][0] and not r[0]"),
+    (["deep2"], "def c(a: bool, n: Qint[2]) -> Qint[2]:\n\tr = deep2(n, a)\n\treturn r[1][1] + r[0][0]"),
+    (["deep2"], "def c(a: bool, n: Qint[2]) -> bool:\n\tr = deep2(n, a)\n\treturn r[0][1] ^ r[1][0]"),
     # tuple actuals with an element NARROWER than the formal's element: rejected, or Python's value (padding belongs to the element, not the tuple's end)
     (["tfirst"], "def c(a: bool) -> Qint[4]:\n\treturn tfirst((2, a))"),
     (["tfirst"], "def c(a: bool, n: Qint[2]) -> Qint[4]:\n\treturn tfirst((n, a))"),
